@@ -10,7 +10,7 @@ PROPS_MODULE = "OxyModel.Props.C01"
 AUDIT = "OxyModel/Audit/C01.lean"
 THEOREMS = ["C01.C01_window", "C01.C01_selects_positive", "C01.C01_zero_never", "C01.C01_share",
             "C01.C01_all_zero_error", "C01.C01_empty_error", "C01.C01_change_resets",
-            "C01.C01_after_any_history", "C01.C01_concurrent"]
+            "C01.C01_after_any_history", "C01.C01_concurrent", "C01.C01_upsert_options", "C01.C01_failed_upsert_weight", "C01.C01_nextFrom_eq_next"]
 RACE = True
 RULE = ("scenario = random history of upsert/remove on 1-8 servers followed by runs of next / pnext; "
         "non-trivial = pool with >= 2 servers and not all weights equal, and a run of >= W consecutive selections")
@@ -60,6 +60,19 @@ def gen(rng, tier):
                     pool.setdefault(k, 1)
                 elif r < 0.23:
                     lines.append("upsert %s -%d" % (k, rng.randint(1, 3)))
+                elif r < 0.29:
+                    # several Weight options in one call; sometimes the last one is invalid (the call fails half-way)
+                    xs = [pick() for _ in range(rng.randint(1, 3))]
+                    if rng.random() < 0.6:
+                        xs.append(-rng.randint(1, 3))
+                    lines.append("upserts %s %s" % (k, " ".join(map(str, xs))))
+                    if k in pool:
+                        for x in xs:
+                            if x < 0:
+                                break
+                            pool[k] = x
+                    elif all(x >= 0 for x in xs):
+                        pool[k] = xs[-1] or 1
                 else:
                     w = pick()
                     lines.append("upsert %s %d" % (k, w))
@@ -79,7 +92,10 @@ def gen(rng, tier):
                 if pool:
                     kk = rng.choice(sorted(pool))
                     w = pick()
-                    lines.append("upsert %s %d" % (kk, w))
+                    if rng.random() < 0.3:
+                        lines.append("upserts %s %d -1" % (kk, w))  # fails after the new weight was written, mid-rotation
+                    else:
+                        lines.append("upsert %s %d" % (kk, w))
                     pool[kk] = w
                     ws2 = list(pool.values())
                     W2 = min((sum(ws2) // reduce(math.gcd, ws2, 0)) if any(ws2) else 3, 400)
@@ -138,6 +154,17 @@ def _ref_pool_events(ops, outs):
                 pool[f[1]] = w if (f[1] in pool or w != 0) else 1
             else:
                 pool.setdefault(f[1], 1)
+        elif f[0] == "upserts":
+            # UpsertServer with several Weight options: they are applied one by one to a known server (a negative one stops
+            # the call with an error, what was applied before it stays); a new server is only added when all succeeded
+            xs = [int(x) for x in f[2:]]
+            if f[1] in pool:
+                for x in xs:
+                    if x < 0:
+                        break
+                    pool[f[1]] = x
+            elif o == "ok" and all(x >= 0 for x in xs):
+                pool[f[1]] = (xs[-1] if xs else 0) or 1
         elif f[0] == "remove" and o == "ok":
             pool.pop(f[1], None)
     if run:
